@@ -589,6 +589,11 @@ class Engine:
         return SBool(z)
 
     def contains(s, item, coll):
+        if isinstance(coll, tuple) and len(coll) == 2 and coll[0] == "range" and isinstance(coll[1], list) and 1 <= len(coll[1]) <= 2:
+            lo, hi = (0, coll[1][0]) if len(coll[1]) == 1 else coll[1]
+            if item is None or isinstance(item, (str, SStr)): return False
+            if not is_sym(item) and not is_sym(lo) and not is_sym(hi): return item in range(lo, hi)
+            x = to_int(item); return SBool(z3.And(x >= to_int(lo), x < to_int(hi)))
         if isinstance(coll, (tuple, list, dict)) and not is_sym(item): return item in coll
         if isinstance(coll, (tuple, list, dict)):
             keys = list(coll)
@@ -920,6 +925,12 @@ class Engine:
                 if i: parts.append(z3.StringVal(base))
                 parts.append(to_str(x))
             return [(st, SStr(z3.Concat(*parts)) if len(parts) > 1 else SStr(parts[0]))]
+        if isinstance(base, (dict, list)) and attr in ("update", "append", "extend", "clear", "pop", "insert", "remove", "setdefault", "sort", "reverse"):
+            # frame condition: module- and class-level tables are never modified by a function under contract (they are shared by every later call)
+            owner = next((k for k, v in s.consts.items() if v is base), None)
+            if owner is not None: ctx.oblige(st, f"frame:module-level table {owner} is not modified", z3.BoolVal(False), node)
+        if isinstance(base, dict) and attr == "update" and len(args) == 1 and isinstance(args[0], dict) and type(base) is dict:
+            base.update(args[0]); return [(st, None)]
         if isinstance(base, dict) and attr in ("items", "keys", "values") and not args:
             return [(st, [tuple(kv) for kv in base.items()] if attr == "items" else list(base.keys()) if attr == "keys" else list(base.values()))]
         if isinstance(base, dict) and attr == "get" and 1 <= len(args) <= 2 and not is_sym(args[0]):
@@ -1131,7 +1142,10 @@ class Engine:
         elif isinstance(target, ast.Subscript):
             (st1, base), = s.eval(target.value, st, ctx)
             (st2, key), = s.eval(target.slice, st1, ctx)
-            if isinstance(base, dict) and not is_sym(key): base[key] = v
+            if isinstance(base, dict) and not is_sym(key):
+                owner = next((k for k, c in s.consts.items() if c is base), None)
+                if owner is not None and not ctx.qual.endswith("<toplevel>"): ctx.oblige(st, f"frame:module-level table {owner} is not modified", z3.BoolVal(False), target)
+                base[key] = v
             else:
                 hook = getattr(s, "setitem_hook", None)
                 if hook is None or not hook(st, base, key, v, ctx, target): raise Unsupported("subscript store")
